@@ -11,9 +11,9 @@ from harness.c10 import schema_positions
 
 DRAFTS = (3, 4, 6, 7)
 NAMES = ["a", "", "a/b", "a~b", "~01", "~1", "%", "%25", "a b", "é", "0", "01", "#", "?", '"', "\\", "~0", "/", "~",
-         "\U0001F600", "x.y", "$ref", "definitions", "a%2Fb"]
+         "\U0001F600", "x.y", "$ref", "definitions", "a%2Fb", "xs:int", "a:b/c"]
 ARRS = ["local", "rootid", "rootidhash", "absref", "relid", "storeabs", "storerel", "storeownid", "chain", "arrayelem",
-        "nestedabs", "nestedrel", "mixed"]
+        "nestedabs", "nestedrel", "mixed", "shadow"]
 _CLS = None
 _TR = None
 
@@ -94,6 +94,9 @@ def build(d, T, pos, name, arr):
         defs = {"tt": {"type": "null"}}
         defs.setdefault(name, {})
         return S, {other: {"definitions": defs}}
+    if arr == "shadow":
+        never = {"disallow": "any"} if d == 3 else {"not": {}}
+        return first(dict(tref(dref), definitions={name: sub}), idk, ROOT), {ROOT: {"definitions": {name: never}}}
     if arr == "urn":
         return first(dict(tref(dref), definitions={name: sub}), idk, "urn:example:root"), {}
     raise KeyError(arr)
